@@ -13,7 +13,11 @@ uint64_t g_set_obj, g_set_off, g_set_n; int g_set_cmp_token; _Bool g_set_desc;
 uint64_t g_reg_idx[NREG]; int64_t g_reg_rank[NREG];
 uint64_t g_key_obj, g_key_off; int64_t g_key_rank;
 uint64_t g_lb[4]; uint64_t g_lb_calls; _Bool g_unregistered_read; uint64_t g_lg;
-_Bool g_has; uint64_t g_wit; uint64_t pre_ncmp;
+_Bool g_has; uint64_t g_wit; uint64_t pre_ncmp; _Bool pre_ss_small, pre_ss_has; uint64_t pre_ss_size, pre_erased_idx;
+#ifdef HAVE_pair_pE_b
+struct aset g_as[2]; uint64_t g_as_nctor, g_as_ndtor;
+struct aset nondet_aset(void);
+#endif
 int64_t nondet_i64(void);
 static void l0_havoc_sets(void) {
   g_set_obj = nondet_u64(); g_set_off = nondet_u64(); g_set_n = nondet_u64(); g_set_cmp_token = nondet_int(); g_set_desc = nondet_bool();
@@ -23,7 +27,12 @@ static void l0_havoc_sets(void) {
   g_lb[0] = nondet_u64(); g_lb[1] = nondet_u64(); g_lb[2] = nondet_u64(); g_lb[3] = nondet_u64();
   g_lb_calls = 0; g_unregistered_read = 0; g_lg = nondet_u64();
   __CPROVER_assume(g_lg < 64 && g_set_n < (1UL << 32) && g_set_off < (1UL << 40));
-  g_has = nondet_bool(); g_wit = nondet_u64(); if (!g_has) g_wit = ~(uint64_t)0; pre_ncmp = nondet_u64();
+  g_has = nondet_bool(); g_wit = nondet_u64(); if (!g_has) g_wit = ~(uint64_t)0;
+  pre_ss_small = nondet_bool(); pre_ss_has = nondet_bool(); pre_ss_size = nondet_u64(); pre_erased_idx = nondet_u64();
+#ifdef HAVE_pair_pE_b
+  g_as[0] = nondet_aset(); g_as[1] = nondet_aset(); g_as_nctor = 0; g_as_ndtor = 0;
+  __CPROVER_assume(g_as[0].n < (1UL << 16) && g_as[1].n < (1UL << 16));
+#endif pre_ncmp = nondet_u64();
 }
 #endif
 
